@@ -225,15 +225,24 @@ func getGroupPath(prefix, path string) string {
 }
 
 // acceptsOffer This function determines if an offer matches a given specification.
-// It checks if the specification ends with a '*' or if the offer has the prefix of the specification.
+// It checks if the specification ends with a '*' or if the offer is the specification.
 // Returns true if the offer matches the specification, false otherwise.
 func acceptsOffer(spec, offer string, _ headerParams) bool {
 	if len(spec) >= 1 && spec[len(spec)-1] == '*' {
 		return true
-	} else if strings.HasPrefix(spec, offer) {
+	}
+	// the whole token: "gzipx" does not accept the offer "gzip"
+	return spec == offer
+}
+
+// acceptsLanguageOffer is acceptsOffer for language ranges: the offer also matches when the
+// range continues with a further subtag ("en-US" accepts the offer "en"), never when it merely
+// starts with the same letters ("eng" does not accept "en").
+func acceptsLanguageOffer(spec, offer string, params headerParams) bool {
+	if acceptsOffer(spec, offer, params) {
 		return true
 	}
-	return false
+	return len(offer) > 0 && len(spec) > len(offer) && spec[len(offer)] == '-' && strings.HasPrefix(spec, offer)
 }
 
 // acceptsOfferType This function determines if an offer type matches a given specification.
